@@ -1,0 +1,22 @@
+//go:build verif
+
+package container
+
+import "github.com/criyle/go-sandbox/pkg/unixsocket"
+
+// SocketBufferSizeForVerif is the payload cap of the gob-framed socket.
+const SocketBufferSizeForVerif = bufferSize
+
+// SocketForVerif exposes the unexported gob-framed socket for two-ended tests.
+type SocketForVerif struct{ s *socket }
+
+// NewSocketForVerif wraps newSocket.
+func NewSocketForVerif(s *unixsocket.Socket) *SocketForVerif {
+	return &SocketForVerif{s: newSocket(s)}
+}
+
+// SendMsg calls the framed SendMsg.
+func (v *SocketForVerif) SendMsg(e any, msg unixsocket.Msg) error { return v.s.SendMsg(e, msg) }
+
+// RecvMsg calls the framed RecvMsg.
+func (v *SocketForVerif) RecvMsg(e any) (unixsocket.Msg, error) { return v.s.RecvMsg(e) }
